@@ -2116,6 +2116,19 @@ def _ext_abs(interp, v):
     return abs(v)
 
 
+def _ext_pow(interp, a, b, m=None):
+    if not (is_sym(a) or is_sym(b) or is_sym(m)):
+        return pow(a, b) if m is None else pow(a, b, m)
+    if m is None:
+        return interp.int_op(ast.Pow, a, b)
+    if is_sym(m) or m <= 0:
+        raise Unmodelled("pow() with a symbolic or non-positive modulus")
+    if interp.truth(interp.cmp_int(ast.Lt, b, 0)):
+        raise Unmodelled("pow() with a negative exponent and a modulus")
+    # square-and-multiply on bounded integers: prompt for any exponent
+    return SymInt(POW(iexpr(a), iexpr(b)) % m)
+
+
 def _ext_print(interp, *a, **k):
     interp.ctx.ghost_log.append(("print", a))
 
@@ -2291,6 +2304,7 @@ DEFAULT_EXTERNALS = {
     min: _minmax(False),
     abs: _ext_abs,
     print: _ext_print,
+    pow: _ext_pow,
     range: _ext_range,
     super: _ext_super,
     callable: _ext_callable,
